@@ -13,6 +13,9 @@ PROPS = {}
 PROPS["C06"] = {
     "module": "RCE.Props.C06",
     "theorems": [
+        "RCE.Props.C06.rook_attacks_exact",
+        "RCE.Props.C06.bishop_attacks_exact",
+        "RCE.Props.C06.queen_attacks_exact",
         "RCE.Props.C06.knight_attacks_exact",
         "RCE.Props.C06.king_attacks_exact",
         "RCE.Props.C06.pawn_attacks_exact",
@@ -56,4 +59,25 @@ PROPS["C17"] = {
     "streams": {"quick": [WALK_Q], "thorough": [WALK_T]},
     "rule": WALK_RULE,
     "assumptions": ["eval_swap needs per-side material <= 32767 cp (true of every reachable position; counter-example without it is a theorem)"],
+}
+
+PROPS["C02"] = {
+    "module": "RCE.Props.C02",
+    "theorems": ["RCE.Props.C02.unmake_make", "RCE.Props.C02.isLegalMove_pure", "RCE.Props.C02.legalMoves_pure",
+                 "RCE.Props.C02.nested_make_unmake"],
+    "streams": {"quick": [WALK_Q], "thorough": [WALK_T]},
+    "tier_b_kinds": [],
+    "rule": WALK_RULE + "; for C02 the full state dump (15 bitboards, turn, counters, ep, key, every undo record, repetition record) is compared "
+            "before/after every make-unmake pair (exhaustive descents, random nested take-backs, complete unwinding of every game) and every legal-move query",
+    "assumptions": ["WF (representation invariant) holds of the start position and is preserved by every generated move (both proved)"],
+}
+
+PROPS["C04"] = {
+    "module": "RCE.Props.C04",
+    "theorems": ["RCE.Props.C04.key_incremental", "RCE.Props.C04.scratchKey_position_only", "RCE.Props.C04.transposition_same_key",
+                 "RCE.Props.C04.fromFen_key", "RCE.Props.C04.start_ok", "RCE.Props.C04.key_ok_run"],
+    "streams": {"quick": [WALK_Q], "thorough": [WALK_T]},
+    "rule": WALK_RULE + "; for C04 the incremental key, the from-scratch key and the key of the FEN reload of the same position are compared after every make and "
+            "every unmake, and all explored keys are grouped by position identity (same identity must give the same key, across games and transpositions)",
+    "assumptions": [],
 }
